@@ -7,7 +7,7 @@ EXTENDS Lang
 Objs == {"a", "b"}
 PropType == [ival |-> "int", jval |-> "int", uval |-> "uint", dval |-> "dbl", flag |-> "bool", flagB |-> "bool",
              text |-> "str", textB |-> "str", mode |-> "Mode", opts |-> "Opts", ptr |-> "ptr", sub |-> "subptr",
-             items |-> "list", konst |-> "int", quiet |-> "int", rdonly |-> "int", xval |-> "int", cptr |-> "ptr"]
+             items |-> "list", konst |-> "int", quiet |-> "int", rdonly |-> "int", xval |-> "int", cptr |-> "ptr", fin |-> "int", finq |-> "int"]
 Props == DOMAIN PropType
 
 DefaultOf(ty) ==
@@ -41,6 +41,7 @@ SlotsE(e) ==
 SlotsSeq(ss) == UNION {SlotsS(ss[i]) : i \in 1..Len(ss)}
 SlotsS(x) ==
   CASE x.k \in {"expr", "let", "const", "asg", "ret"} -> SlotsE(x.e)
+    [] x.k = "asgsub" -> SlotsE(x.i) \cup SlotsE(x.e)
     [] x.k = "wprop" -> SlotsE(x.o) \cup SlotsE(x.e)
     [] x.k \in {"mcall", "letc"} -> SlotsE(x.o) \cup SlotsArgs(x.args)
     [] x.k = "log" -> SlotsArgs(x.args)
